@@ -279,9 +279,10 @@ def _is_true_const(test):
 
 
 class Enumerator(object):
-    def __init__(self, prune=True):
+    def __init__(self, prune=True, unroll=1):
         self.prune = prune
         self.count = 0
+        self.unroll = unroll   # iterations of every loop that are unfolded (1 or 2)
 
     def seq(self, paths, stmts):
         for st in stmts:
@@ -384,7 +385,38 @@ class Enumerator(object):
             _invalidate_facts(one.facts, st.iter)
         if one is None:
             return out
-        for q in self.seq([one], st.body):
+        iterations = self.seq([one], st.body)
+        for _ in range(self.unroll - 1):
+            nxt = []
+            for q in iterations:
+                if q.end in ("fall", "continue"):
+                    q2 = q.plus(("backedge", st))
+                    q2.end = "fall"
+                    if isinstance(st, ast.While):
+                        q2 = q2.plus(("enter", st))
+                        q3 = self.branch(q2, st.test, True) if not forever else q2.plus(("cond", st.test, True))
+                        if q3 is None:
+                            continue
+                        # the loop may also stop here
+                        if not forever:
+                            z = self.branch(q2, st.test, False)
+                            if z is not None:
+                                z.end = "fall"
+                                out.extend(self.seq([z], st.orelse))
+                    else:
+                        q3 = q2.plus(("iter", st))
+                        for nm in A.target_names(st.target):
+                            q3.env.pop(nm, None)
+                        _invalidate_facts(q3.facts, st.target)
+                        # the loop may also stop after the first iteration
+                        stop = q2.plus()
+                        stop.end = "fall"
+                        out.extend(self.seq([stop], st.orelse))
+                    nxt.extend(self.seq([q3], st.body))
+                else:
+                    nxt.append(q)
+            iterations = nxt
+        for q in iterations:
             if q.end in ("fall", "continue"):
                 qq = q.plus(("backedge", st))
                 qq.end = "fall"
@@ -469,9 +501,9 @@ def _single_const_store(loop, name, cv):
     return True
 
 
-def paths_of(fn, prune=True):
+def paths_of(fn, prune=True, unroll=1):
     """All paths through the body of function *fn*."""
-    return Enumerator(prune).seq([Path()], fn.body)
+    return Enumerator(prune, unroll).seq([Path()], fn.body)
 
 
 def paths_through(stmts, prune=True, env=None):
